@@ -40,6 +40,95 @@ CHECKS = {
              "guard-set theorem and the oracle, not by the interpreter model; HTTP level=core is C10/C11.",
         technique="Coq proof (structural induction over values / documents, finite guard-set checks on regenerated tables) + correspondence",
         design_ref="DESIGN.md 6.C18"),
+
+    "C07": dict(
+        category="proof",
+        text="Key types, class hierarchy (MRO), KeyTypes predicates, namespace/list/identifiable tables and the eq/hash/setattr "
+             "bodies of Key/Reference/SpecificAssetId are translated from the source on every run; a hand-written executable model "
+             "of Key.from_referable, ModelReference.__init__/from_referable/resolve, get_referable, DictObjectStore and "
+             "ObjectProviderMultiplexer is proved, for every well-formed tree of any depth/width and every node, to resolve "
+             "constructed references and idShort paths to exactly that node, to be sound and unambiguous for arbitrary key chains, "
+             "and to raise KeyError/TypeError/ValueError in exactly the documented situations; tied to the SDK by differential "
+             "execution on random providers over every container kind with perturbed chains.",
+        note="Trusted: Coq kernel + vm_compute; translators tools/py2coq/refkeys.py, refeqhash.py (validated against live classes "
+             "each run); hand-written Refs.v incl. the ModelReference constructor check (tie C only); int()/str()/isnumeric() "
+             "modelled for ASCII strings only; C01 invariant assumed as wf_tree; component values of value objects assumed eq => hash.",
+        technique="Coq proof (structural induction over paths, finite checks on regenerated tables) + correspondence + independent oracle",
+        design_ref="DESIGN.md 6.C07, 10.4"),
+    "C17": dict(
+        category="proof",
+        text="Executable model of commit/_direct_source_commit/update/find_source/get_backend proved equal, for every well-formed "
+             "tree, node, registry and source placement, to carrying out a declaratively characterised list of intended calls (each "
+             "sourced strict ancestor once, own source, each sourced descendant once, nothing else; nearest sourced ancestor for "
+             "update) with abort at the first source lacking a backend; commit paths proved to lead from store object to object; "
+             "update's path: full statement refuted (open known finding pinned by test_base.py:171), partial theorem proved.",
+        note="Trusted: Coq kernel; Dispatch.v tied by correspondence with recording Backends registered via register_backend; "
+             "backends never raise; ASCII sources; C01 invariant.",
+        technique="Coq proof + correspondence + multiset/path-walk oracle",
+        design_ref="DESIGN.md 6.C17, 10.4"),
+    "C13": dict(
+        category="proof",
+        text="Closed Coq theorems over an executable model of DictObjectStore (with the inherited MutableSet methods), "
+             "AbstractObjectProvider.get, ObjectProviderMultiplexer and NamespaceIRIGenerator: representation invariant and "
+             "refinement to a functional map for every history (state and outputs), duplicate rejection, removal locality, pop/clear, "
+             "iteration = each stored object exactly once, multiplexer = first provider that knows the id, generate_id terminates "
+             "within |known|+1 rounds (pigeonhole) with a fresh identifier in the namespace for any counter-cache state; tied to the "
+             "SDK by differential execution of call sequences over pools with objects sharing one identifier.",
+        note="Trusted: Coq kernel + vm_compute; hand-written Store.v tied by correspondence only; object identity modelled by tokens; "
+             "UUIDGenerator only by correspondence; Python harness/oracle.",
+        technique="Coq proof (induction over histories, refinement to a map, pigeonhole) + correspondence + dict oracle",
+        design_ref="DESIGN.md 6.C13, 10.4"),
+    "C01": dict(
+        category="proof",
+        text="Closed Coq theorems over an executable model of NamespaceSet / OrderedNamespaceSet (several sets sharing one "
+             "uniqueness domain, case-insensitive keys, SubmodelElementList hooks with their undo path), the renaming setters and "
+             "the list value setter: the invariant (uniqueness across the namespace, parent link iff contained, lookup by key / "
+             "index returns the contained child, iteration/len/membership/positions agree) holds initially, is preserved by every "
+             "public call whether it returns or raises, hence after every history; failing single-element calls leave the state "
+             "exactly unchanged; tied to the SDK by differential execution over all namespace kinds with colliding, case-differing, "
+             "None and foreign-owned elements.",
+        note="Trusted: Coq kernel + vm_compute; hand-written Namespace.v tied by correspondence only; element identity by tokens; "
+             "Python harness and invariant-checker oracle.",
+        technique="Coq proof (inductive invariant over operation histories, atomicity of failing calls) + correspondence + invariant oracle",
+        design_ref="DESIGN.md 6.C01, 10.4"),
+    "C14": dict(
+        category="proof",
+        text="Closed Coq theorems over a model of LocalFileObjectStore / LocalFileBackend with Referable.update/commit dispatch: any "
+             "number of instances on one directory, live objects and weak caches. For every call history the answers are those of "
+             "one persistent map; contracts for get/add/discard/update; a retrieved object stays the one handed out while it is "
+             "alive; for two threads doing get/add of one id on one instance every schedule of the modelled yield points yields a "
+             "single object (the two pre-repair races are refuted). Tied to the SDK by differential execution of seeded histories "
+             "and of all thread interleavings forced on real threads.",
+        note="Partial w.r.t. OS, GC timing and the real scheduler (only interleavings at the modelled yield points). Trusted: "
+             "kernel + vm_compute; hand-written model; JSON adapter and update_from exercised only through payloads (C03/C12); "
+             "sha256 injective; file system = name->content map; no other process writes the directory.",
+        technique="Coq proof (simulation by a persistent map, small-step two-thread semantics) + correspondence incl. forced interleavings",
+        design_ref="DESIGN.md 6.C14, 10.4"),
+    "C15": dict(
+        category="proof",
+        text="Closed Coq theorems over an effect-list model of LocalFileObjectStore.add / LocalFileBackend.commit_object: every "
+             "disciplined write (encode; temp file open/write/close; atomic rename; then marks) is all-or-nothing under every fault "
+             "list (exception at any effect, failing cleanup, process death at any effect with any prefix of buffered data "
+             "flushed); other files untouched; a fresh store answers every operation; a failed add is neither contained nor "
+             "marked; histories of faulty writes refine an atomic map; the pre-repair effect order is refuted. Tied to local_file.py "
+             "by fault-injection correspondence: observed effect list, outcome, directory and fresh-store answers equal the model's.",
+        note="Partial w.r.t. kernel durability on power loss. Trusted: kernel + vm_compute; hand-written model; os.replace atomic; a "
+             "failing open() creates nothing; buffered data reaches a file as a prefix; no strict prefix of a document parses "
+             "(checked on samples); faults injected at the Python API boundary.",
+        technique="Coq proof (induction over effect lists, phase invariant) + fault-injection correspondence",
+        design_ref="DESIGN.md 6.C15, 10.4"),
+    "C08": dict(
+        category="proof",
+        text="Closed theorems over an executable model of the AASXWriter/AASXReader selection, de-duplication, relationship, merge "
+             "and renaming logic (on top of the C19 container theorems), with the payload codec and the OPC container as visible "
+             "premises (the OPC premise is proved for the reference semantics the correspondence evaluates): closure of written "
+             "objects, objects and files read back (also into a pre-populated container), merge policy, frame, core properties and "
+             "thumbnail; a case-colliding-names refutation recorded as open finding. Tied to aasx.py / traversal.py by differential "
+             "execution on in-memory packages.",
+        note="Partial for the zip/OPC container and the JSON/XML text layer (premises). Submodel elements modelled as a flat "
+             "document-order list; one container per session. Trusted: kernel + vm_compute, tools/c08.py, SHA-256 injective.",
+        technique="Coq proof + model/implementation correspondence + independent oracle",
+        design_ref="DESIGN.md 6.C08, 10.4"),
 }
 
 NOT_YET = "check under construction in this round (see DESIGN.md section 9); not claimed until it is green on the unchanged tree"
